@@ -147,3 +147,136 @@ pub fn cmd_probe_f4(args: &HashMap<String, String>) -> i32 {
     }
     0
 }
+
+/// F21: process crash with a log record written but not yet synced; recovery enacts it; power loss
+/// during that recovery (the unsynced log bytes are gone, some of the table pages recovery dirtied reached
+/// the disk): the second recovery finds a torn transaction.
+pub fn cmd_probe_f21(_args: &HashMap<String, String>) -> i32 {
+    use crate::common::{copy_dir, DurableState};
+    let root = crate::common::scratch_root();
+    let dir = root.join("f21");
+    let img1 = root.join("f21_img1");
+    let img2 = root.join("f21_img2");
+    let shadow = root.join("f21_shadow");
+    for d in [&dir, &img1, &img2, &shadow] {
+        let _ = std::fs::remove_dir_all(d);
+    }
+    let mut o = Options::with_columns(&dir, 1);
+    o.columns[0] = ColumnOptions::default();
+    o.with_background_thread = false;
+    o.always_flush = true;
+    let db = Db::open_or_create(&o).unwrap();
+    let drain = |db: &Db| {
+        db.process_commits().unwrap();
+        db.flush_logs().unwrap();
+        db.enact_logs().unwrap();
+        db.clean_logs().unwrap();
+    };
+    // transaction A: creates the two value tables and the index
+    db.commit(vec![(0u8, b"a-small".to_vec(), Some(vec![1u8; 10])), (0u8, b"a-large".to_vec(), Some(vec![1u8; 300]))]).unwrap();
+    drain(&db);
+    // transaction B: two values in different size tiers; its record reaches the log FILE but is not synced
+    db.commit(vec![(0u8, b"b-small".to_vec(), Some(vec![2u8; 10])), (0u8, b"b-large".to_vec(), Some(vec![2u8; 300]))]).unwrap();
+    db.process_commits().unwrap();
+    crate::sys::set_observer(Some(std::sync::Arc::new(|_c: &str, _n: &str, _r: i64| {})));
+    crate::sys::set_failure(Some(("fdatasync", 0, 5)));
+    let r = db.flush_logs();
+    crate::sys::set_failure(None);
+    crate::sys::set_observer(None);
+    println!("flush_logs with a failing fdatasync: {:?}", r.map_err(|e| e.to_string()));
+    // process crash
+    copy_dir(&dir, &img1).unwrap();
+    std::mem::forget(db);
+    let logs: Vec<(String, u64)> = std::fs::read_dir(&img1).unwrap().flatten().map(|e| (e.file_name().to_string_lossy().to_string(), e.metadata().unwrap().len())).filter(|x| x.0.starts_with("log")).collect();
+    println!("crash image 1: log files {:?}", logs);
+    // what is on stable storage in image 1: the tables as they are (A was flushed), nothing of B's log bytes
+    std::fs::create_dir_all(&shadow).unwrap();
+    for e in std::fs::read_dir(&img1).unwrap().flatten() {
+        let n = e.file_name().to_string_lossy().to_string();
+        if n.starts_with("table_") || n.starts_with("index_") {
+            crate::common::copy_sparse(&e.path(), &shadow.join(&n)).unwrap();
+        }
+    }
+    let durable = DurableState { db_dir: img1.clone(), shadow: shadow.clone(), log_synced: logs.iter().map(|l| (l.0.clone(), 0u64)).collect() };
+    // recovery of image 1, power loss right after the record was enacted (before recovery flushes the tables)
+    let taken = std::sync::Arc::new(std::sync::atomic::AtomicBool::new(false));
+    let (t2, i1, i2) = (taken.clone(), img1.clone(), img2.clone());
+    // log syncs performed by the recovery itself count
+    let durable = std::sync::Arc::new(std::sync::Mutex::new(durable));
+    let d3 = durable.clone();
+    let i1b = img1.clone();
+    crate::sys::set_observer(Some(std::sync::Arc::new(move |call: &str, name: &str, ret: i64| {
+        if ret == 0 && (call == "fdatasync" || call == "fsync") && name.starts_with("log") {
+            if let Ok(m) = std::fs::metadata(i1b.join(name)) {
+                d3.lock().unwrap().log_synced.insert(name.to_string(), m.len());
+            }
+        }
+    })));
+    let d2 = durable.clone();
+    parity_db::verif::set_sink(Some(std::sync::Arc::new(move |n: &'static str, _a: &[u64]| {
+        if n == "EnactEnd" && !t2.swap(true, std::sync::atomic::Ordering::SeqCst) {
+            crate::sys::quiet(|| {
+                let _ = copy_dir(&i1, &i2);
+                // the small-value table and the index reached the disk, the large-value table did not
+                let mut k = 0u64;
+                let mut pick = |n: u64| {
+                    k += 1;
+                    if n == 2 { 1 } else { 0 }
+                };
+                let _ = d2.lock().unwrap().apply_power_loss(&i2, &mut pick);
+            });
+        }
+    })));
+    let mut o1 = o.clone();
+    o1.path = img1.clone();
+    let _ = std::fs::remove_file(img1.join("lock"));
+    let r = Db::open(&o1);
+    parity_db::verif::set_sink(None);
+    crate::sys::set_observer(None);
+    println!("first recovery: {:?}; image 2 taken during it: {}", r.as_ref().map(|_| ()).map_err(|e| e.to_string()), taken.load(std::sync::atomic::Ordering::SeqCst));
+    if let Ok(d) = r {
+        println!("  (uninterrupted recovery sees b-small={:?} b-large={:?})", d.get(0, b"b-small").unwrap().map(|v| v.len()), d.get(0, b"b-large").unwrap().map(|v| v.len()));
+        std::mem::forget(d);
+    }
+    // image 2 as built above keeps every table "as now" (pick(2) = 1): replace the large-value table by its durable version
+    for e in std::fs::read_dir(&img2).unwrap().flatten() {
+        let n = e.file_name().to_string_lossy().to_string();
+        if n.starts_with("table_") {
+            let cur = std::fs::read(e.path()).unwrap();
+            let old = std::fs::read(shadow.join(&n)).unwrap_or_default();
+            println!("  image 2 {n}: {} bytes now, {} bytes durable, differs {}", cur.len(), old.len(), cur != old);
+        }
+    }
+    let big = std::fs::read_dir(&img2).unwrap().flatten().map(|e| e.file_name().to_string_lossy().to_string()).filter(|n| n.starts_with("table_")).max_by_key(|n| std::fs::metadata(img2.join(n)).map(|m| m.len()).unwrap_or(0));
+    let _ = big;
+    // the table of the 300-byte values: the one whose name is not the 10-byte tier; take the table with the larger entry size
+    let mut tables: Vec<String> = std::fs::read_dir(&img2).unwrap().flatten().map(|e| e.file_name().to_string_lossy().to_string()).filter(|n| n.starts_with("table_")).collect();
+    tables.sort();
+    if let Some(last) = tables.last() {
+        crate::common::copy_sparse(&shadow.join(last), &img2.join(last)).unwrap();
+        println!("  power loss: {last} keeps its durable content, the other files keep what recovery wrote, the log is empty");
+    }
+    let mut o2 = o.clone();
+    o2.path = img2.clone();
+    let _ = std::fs::remove_file(img2.join("lock"));
+    let mut viol: Vec<String> = Vec::new();
+    match Db::open(&o2) {
+        Ok(d) => {
+            let g = |k: &[u8]| d.get(0, k).ok().flatten().map(|x| x.len());
+            let (a1, a2, b1, b2) = (g(b"a-small"), g(b"a-large"), g(b"b-small"), g(b"b-large"));
+            println!("second recovery: a-small={a1:?} a-large={a2:?} b-small={b1:?} b-large={b2:?}");
+            if a1 != Some(10) || a2 != Some(300) {
+                viol.push("transaction A (applied and flushed before the first crash) is damaged after the second recovery".into());
+            }
+            if b1.is_some() != b2.is_some() {
+                viol.push(format!("power loss during the recovery that followed a process crash tore transaction B: b-small={b1:?} b-large={b2:?} (its log record was applied to the tables before the log bytes were synced)"));
+            }
+        },
+        Err(e) => viol.push(format!("second recovery failed: {e}")),
+    }
+    println!("{}", serde_json::json!({"which": "power-loss-in-recovery", "image_taken": taken.load(std::sync::atomic::Ordering::SeqCst), "violations": viol}));
+    for d in [&dir, &img1, &img2, &shadow] {
+        let _ = std::fs::remove_dir_all(d);
+    }
+    0
+}
